@@ -1,6 +1,7 @@
 CONSTANTS N = 3  Shapes = {"probe", "nonl"}  Statuses = {0}  Pres = {"none", "wd", "env", "both"}
 CONSTANTS AllowTimeout = FALSE  AllowKill = FALSE
 CONSTANTS FallbackShell = FALSE  CloseOnFailure = FALSE  FallbackOnTimeout = TRUE  PreambleInShell = FALSE
+CONSTANTS UtfLen = 2  UtfWidths = {1, 2, 3, 4}  IncrementalDecode = TRUE
 INIT MCInit
 NEXT MCNext
 VIEW View
